@@ -435,6 +435,16 @@ func genScript(r *lib.Rng, shape int) []step {
 		for i := 0; i < 10; i++ {
 			add(0, actDeliver) // whatever got into the pool is sent by now
 		}
+	case 16: // a foreign server answers with more cookies than asked for, at every pool level
+		add(0, actDeliver)
+		for i := int(r.Range(0, 7)); i > 0; i-- {
+			add(0, lib.Pick(r, actDropReq, actDropReply))
+		}
+		add(0, actOverfill)
+		for i := int(r.Range(1, 6)); i > 0; i-- {
+			add(0, lib.Pick(r, actDeliver, actOverfill, actDropReply))
+		}
+		add(0, actDeliver)
 	case 7: // one real timeout
 		add(0, actDeliver)
 		add(0, actTimeout)
@@ -459,11 +469,11 @@ func genHistories(r *lib.Rng, tier string) (scripts [][]step) {
 		s = append(s, step{action: actDeliver}, step{action: actDeliver}, step{action: actDeliver})
 		scripts = append(scripts, s)
 	}
-	for _, sh := range []int{8, 9, 10, 11, 11, 11, 11, 11, 11, 12, 12, 13, 13, 13, 13, 13, 13, 14, 14, 14, 14, 14, 15, 15, 15, 15, 15, 15} {
+	for _, sh := range []int{8, 9, 10, 11, 11, 11, 11, 11, 11, 12, 12, 13, 13, 13, 13, 13, 13, 14, 14, 14, 14, 14, 15, 15, 15, 15, 15, 15, 16, 16, 16, 16, 16, 16} {
 		scripts = append(scripts, genScript(r, sh))
 	}
 	for i := 0; i < n; i++ {
-		shape := lib.Pick(r, 0, 1, 1, 1, 2, 2, 3, 3, 3, 4, 4, 5, 6, 6, 8, 8, 9, 10, 10, 11, 11, 11, 12, 13, 13, 14, 14, 15, 15)
+		shape := lib.Pick(r, 0, 1, 1, 1, 2, 2, 3, 3, 3, 4, 4, 5, 6, 6, 8, 8, 9, 10, 10, 11, 11, 11, 12, 13, 13, 14, 14, 15, 15, 16, 16)
 		if i%40 == 7 {
 			shape = 7
 		}
@@ -679,7 +689,7 @@ func genSCIONHistories(r *lib.Rng, tier string) (scripts [][]step) {
 		scripts = append(scripts, s)
 	}
 	for i := 0; i < n; i++ {
-		scripts = append(scripts, genScript(r, lib.Pick(r, 0, 0, 1, 1, 2, 3, 3, 4, 5, 8, 9, 10, 10, 11, 12, 14, 14, 15, 15)))
+		scripts = append(scripts, genScript(r, lib.Pick(r, 0, 0, 1, 1, 2, 3, 3, 4, 5, 8, 9, 10, 10, 11, 12, 14, 14, 15, 15, 16)))
 	}
 	return scripts
 }
@@ -714,7 +724,7 @@ func (e *env) runConc(args string) (tags, a, outs string) {
 	}
 	var rs []string
 	for r := 0; r < rounds; r++ {
-		for len(x.fetcher.VerifData().Cookie) < 2*gs {
+		for len(x.fetcher.VerifData().Cookie) < 8 { // a full pool
 			c := make([]byte, 124)
 			crand(c)
 			x.fetcher.StoreCookie(c)
